@@ -2,7 +2,7 @@ SPECIFICATION Spec
 CONSTANTS
   StartVecs <- VecsSmall
   StartAngs <- StartSmall
-  RhsAngs <- RhsSmall
+  RhsAngs <- RhsQuick
   MaxLen = 3
   UseForms <- Forms
 INVARIANT Proper
